@@ -210,6 +210,10 @@ inductive Forest where
   | cons (name : Bytes) (t : Tree) (rest : Forest)
 end
 
+def Tree.isDir : Tree → Bool
+  | .dir _ => true
+  | _ => false
+
 structure SaveOpts where
   all : Bool      -- -a
   quote : Bool    -- -quote
@@ -237,7 +241,7 @@ def saveTree (o : SaveOpts) (rel : List Bytes) : Tree → Option (Bytes × List 
 def saveForest (o : SaveOpts) (rel : List Bytes) : Forest → Option (Bytes × List File)
   | .nil => some ([], [])
   | .cons name t rest =>
-    if Gen.Fsx.dotSkip name o.all then saveForest o rel rest
+    if Gen.Fsx.dotSkip name o.all && (Gen.Fsx.dotSkipsDir || !t.isDir) then saveForest o rel rest
     else
       match saveTree o (rel ++ [name]) t with
       | none => none
